@@ -752,6 +752,114 @@ func genTsBatch(g *gen) {
 			}
 		}
 		g.tsbEmitBool("empty_batch_removes_root", "testscript.RunT: with no script at all RunT removes the temporary root itself", emptyCleans)
+		// the shared context: created once, in RunT's own body (not inside the function handed to t.Run), and
+		// cancelled by RunT itself - like the removal of the root - only under a condition that requires
+		// that there is no script at all
+		{
+			type span struct{ lo, hi token.Pos }
+			var lits []span
+			ast.Inspect(runT.Body, func(n ast.Node) bool {
+				if fl, ok := n.(*ast.FuncLit); ok {
+					lits = append(lits, span{fl.Pos(), fl.End()})
+				}
+				return true
+			})
+			inLit := func(p token.Pos) bool {
+				for _, l := range lits {
+					if p >= l.lo && p < l.hi {
+						return true
+					}
+				}
+				return false
+			}
+			outside, inside := 0, 0
+			ast.Inspect(runT.Body, func(n ast.Node) bool {
+				if c, ok := n.(*ast.CallExpr); ok && (tsbIsSel(c.Fun, "context", "WithTimeout") || tsbIsSel(c.Fun, "context", "WithDeadline")) {
+					if inLit(c.Pos()) {
+						inside++
+					} else {
+						outside++
+					}
+				}
+				return true
+			})
+			g.tsbEmitBool("ctx_created_once_in_runt", "testscript.RunT: context.WithTimeout is called once, in RunT's own body before any subtest is started (not inside the function handed to t.Run, where the time-out would count from the start of the subtest)", outside == 1 && inside == 0)
+
+			var conjuncts func(e ast.Expr, out *[]ast.Expr)
+			conjuncts = func(e ast.Expr, out *[]ast.Expr) {
+				if p, ok := e.(*ast.ParenExpr); ok {
+					conjuncts(p.X, out)
+					return
+				}
+				if be, ok := e.(*ast.BinaryExpr); ok && be.Op == token.LAND {
+					conjuncts(be.X, out)
+					conjuncts(be.Y, out)
+					return
+				}
+				*out = append(*out, e)
+			}
+			requiresNoScript := func(cond ast.Expr) bool {
+				var cs []ast.Expr
+				conjuncts(cond, &cs)
+				for _, c := range cs {
+					be, ok := c.(*ast.BinaryExpr)
+					if !ok || be.Op != token.EQL {
+						continue
+					}
+					if v, ok := tsbIntLit(be.Y); !ok || v != 0 {
+						continue
+					}
+					names := false
+					ast.Inspect(be.X, func(k ast.Node) bool {
+						if id, ok := k.(*ast.Ident); ok && (id.Name == "refCount" || id.Name == "files") {
+							names = true
+						}
+						return true
+					})
+					if names {
+						return true
+					}
+				}
+				return false
+			}
+			var ifs []*ast.IfStmt
+			ast.Inspect(runT.Body, func(n ast.Node) bool {
+				if is, ok := n.(*ast.IfStmt); ok && !inLit(is.Pos()) {
+					ifs = append(ifs, is)
+				}
+				return true
+			})
+			guardedAll := true
+			ast.Inspect(runT.Body, func(n ast.Node) bool {
+				c, ok := n.(*ast.CallExpr)
+				if !ok || inLit(c.Pos()) {
+					return true
+				}
+				isCancel := false
+				if id, ok := c.Fun.(*ast.Ident); ok && id.Name == "cancel" && len(c.Args) == 0 {
+					isCancel = true
+				}
+				if tsbIsSel(c.Fun, "os", "Remove") && len(c.Args) == 1 {
+					if id, ok := c.Args[0].(*ast.Ident); ok && id.Name == "testTempDir" {
+						isCancel = true
+					}
+				}
+				if !isCancel {
+					return true
+				}
+				guarded := false
+				for _, is := range ifs {
+					if c.Pos() >= is.Body.Pos() && c.Pos() < is.Body.End() && requiresNoScript(is.Cond) {
+						guarded = true
+					}
+				}
+				if !guarded {
+					guardedAll = false
+				}
+				return true
+			})
+			g.tsbEmitBool("early_cleanup_only_without_scripts", "testscript.RunT: outside the subtests RunT calls cancel() / os.Remove(testTempDir) only under a condition that requires refCount == 0 (no script at all), whatever the retention settings", guardedAll)
+		}
 		// WorkdirRoot != "" sets p.TestWork = true
 		okWR := false
 		ast.Inspect(runT.Body, func(n ast.Node) bool {
@@ -822,6 +930,41 @@ func genTsBatch(g *gen) {
 		}
 		g.tsbEmitBool("fg_kill_delay_is_grace", "testscript.exec: foreground commands are waited for with waitOrStop(ts.ctxt, cmd, ts.gracePeriod)", ok)
 	}
+	// ---------------------------------------------------------------- the environment of started programs
+	{
+		// cmd.Env = append(ts.env, "PWD="+ts.cd) in exec and in execBackground: the appended entry is what keeps
+		// the slice from being nil (os/exec replaces a nil Env by the environment of the test process)
+		appends := func(fd *ast.FuncDecl) bool {
+			found := false
+			ast.Inspect(fd.Body, func(n ast.Node) bool {
+				as, ok := n.(*ast.AssignStmt)
+				if !ok || len(as.Lhs) != 1 || len(as.Rhs) != 1 || !tsbIsSel(as.Lhs[0], "cmd", "Env") {
+					return true
+				}
+				call, ok := as.Rhs[0].(*ast.CallExpr)
+				if !ok || len(call.Args) != 2 {
+					return true
+				}
+				if fn, ok := call.Fun.(*ast.Ident); !ok || fn.Name != "append" || !tsbIsSel(call.Args[0], "ts", "env") {
+					return true
+				}
+				var ops []ast.Expr
+				tsbFlattenAdd(call.Args[1], &ops)
+				if len(ops) == 2 {
+					if lit, ok := tsbStrLit(ops[0]); ok && lit == "PWD=" && tsbIsSel(ops[1], "ts", "cd") {
+						found = true
+					}
+				}
+				return true
+			})
+			return found
+		}
+		fg, bg := g.funcDecl(dir, "TestScript.exec"), g.funcDecl(dir, "TestScript.execBackground")
+		if fg != nil && bg != nil {
+			g.tsbEmitBool("exec_env_appends_pwd", "testscript.exec and testscript.execBackground: cmd.Env = append(ts.env, \"PWD=\"+ts.cd) (never a nil slice, which os/exec would replace by the environment of the test process)", appends(fg) && appends(bg))
+		}
+	}
+
 	ce := g.funcDecl(dir, "TestScript.cmdExec")
 	if ce != nil {
 		okBg := false
